@@ -16,7 +16,7 @@ static struct evm ring[64]; static int rcount; static struct evm cur; static boo
 static long next_id, last_started, processed, accepted, refused, failed_fast, opn, nops;
 static int script_left; static unsigned p_write; static prng_t HP;
 static bool hold_active; static long started_observed;
-static bool saw_action_for_cur, cur_terminal_returned, cur_var_failed;
+static bool saw_action_for_cur, cur_terminal_returned, cur_var_failed, saw_output_for_cur;
 
 static bool model_buffered(int cmd, int type)
 {
@@ -35,11 +35,15 @@ static void on_phase(int code)
                 if (pc != W.cmd[e.cmd] || W.at->unsolicited_fsm.cmd_type != (cat_cmd_type)e.type)
                         viol("C13", "not-fifo", "dequeued (cmd#%d, type %d) but the oldest accepted event is id %ld = (cmd#%d, type %d)", cmd_index(pc), (int)W.at->unsolicited_fsm.cmd_type, e.id, e.cmd, e.type);
                 if (e.id <= last_started) viol("C13", "order", "event id %ld started after id %ld", e.id, last_started);
-                last_started = e.id; cur = e; inprog = true; saw_action_for_cur = false; cur_terminal_returned = false; cur_var_failed = false; script_left = (int)pr_n(&HP, 3);
+                last_started = e.id; cur = e; inprog = true; saw_action_for_cur = false; cur_terminal_returned = false; cur_var_failed = false; saw_output_for_cur = false; script_left = (int)pr_n(&HP, 3);
                 CNT("events_dequeued");
         } else if (code == 4) {
                 if (inprog) {
                         inprog = false; processed++;
+                        if (saw_action_for_cur && !saw_output_for_cur && !cur_var_failed && cur.cmd == 0) {      /* +AUTO has no handlers: when no variable callback failed and the text fits, its line is offered to the output */
+                                char t[200]; int n = cur.type == CAT_CMD_TYPE_READ ? ref_fmt_read(W.cmd[0], t, sizeof t) : ref_fmt_test(W.cmd[0], "\r\n", t, sizeof t);
+                                if (n >= 0 && (size_t)n + 1 <= W.capU) viol("C13", "event-dropped", "accepted event id %ld of \"+AUTO\" (type %d) read its variable and then finished without offering a byte of its line \"%s\"", cur.id, cur.type, t);
+                        }
                         if (!saw_action_for_cur) {
                                 failed_fast++; CNT("events_failed_at_once");
                                 /* "processed" means something: an event of +AUTO (a variable, no handlers, text that fits) prints its line, an event of +H / +H2 reaches their handler - whatever the flags of those commands say about command lines */
@@ -55,6 +59,7 @@ static cat_return_state policy(struct hcall *h)
         if (h->fsm == FSM_A) {
                 if (h->kind == K_RUN && h->ci == 5) { if (pr_pct(&HP, 50)) { hold_active = true; return CAT_RETURN_STATE_HOLD; } }
                 /* a command that waits for its own notification: "AT+H?" asks again (NEXT) as long as a READ event of +H is pending - events are processed independently of command traffic, so this ends */
+                if (h->kind == K_READ && h->ci == 4 && h->max > 4) { size_t L = h->max - 1 - pr_n(&HP, 3); memset(h->data, 'x', L); h->data[L] = 0; *h->psize = L; return CAT_RETURN_STATE_DATA_OK; }      /* "AT+H2?": a response that fills the command buffer (its flush cursor runs up to the end of the buffer) */
                 if (h->kind == K_READ && h->ci == 1 && cat_is_unsolicited_event_buffered(W.at, h->cmd, CAT_CMD_TYPE_READ) == CAT_STATUS_BUSY) { CNT("command_polls_for_its_own_event"); return CAT_RETURN_STATE_NEXT; }
                 return CAT_RETURN_STATE_DATA_OK;
         }
@@ -82,7 +87,7 @@ static int vpolicy(int ci, int vi, int dir, size_t ws)
         if (pr_pct(&HP, 25)) { cur_var_failed = true; CNT("event_variable_reads_failing"); return pr_pct(&HP, 50) ? 1 : -3; }
         return 0;
 }
-static void on_write(bool isA, char c, bool ok) { (void)c; (void)ok; if (!isA) { saw_action_for_cur = true; if (!inprog) viol("C13", "output-without-event", "event producer offered output while no event is in progress"); } }
+static void on_write(bool isA, char c, bool ok) { (void)c; (void)ok; if (!isA) { saw_action_for_cur = true; saw_output_for_cur = true; if (!inprog) viol("C13", "output-without-event", "event producer offered output while no event is in progress"); } }
 
 void chk_describe(FILE *f)
 {
@@ -130,7 +135,7 @@ void chk_run_case(uint64_t seed, long c, bool is_sweep)
         struct cat_command *arr = w_group(NCMD, false);
         static uint8_t dummy;
         (void)dummy;
-        arr[0].name = xstr("+AUTO"); { struct cat_variable *v = w_vars(&arr[0], 2); v[0].type = CAT_VAR_UINT_DEC; v[0].name = "X"; uint8_t *d = w_vdata(&v[0], 1); *d = 9; v[0].read = hv_read; v[1].type = CAT_VAR_UINT_DEC; uint8_t *e = w_vdata(&v[1], 1); *e = 4; }
+        arr[0].name = xstr("+AUTO"); { struct cat_variable *v = w_vars(&arr[0], 2); v[0].type = CAT_VAR_UINT_DEC; v[0].name = "X"; uint8_t *d = w_vdata(&v[0], 1); *d = 9; v[0].read = hv_read; v[1].type = chance(50) ? CAT_VAR_UINT_DEC : CAT_VAR_BUF_HEX; uint8_t *e = w_vdata(&v[1], v[1].type == CAT_VAR_BUF_HEX ? 3 : 1); e[0] = 4; }
         arr[1].name = xstr("+H"); arr[1].read = h_read; arr[1].test = h_test; { struct cat_variable *v = w_vars(&arr[1], 1); v->type = CAT_VAR_UINT_DEC; uint8_t *d = w_vdata(v, 2); d[0] = 1; v->read = hv_read; }
         arr[2].name = xstr("+FAIL");                                                      /* READ fails at once, TEST prints "+FAIL=" */
         arr[3].name = xstr("+LONGNAMETHATDOESNOTFITINTHEEVENTBUFFERATALL0123456789"); arr[3].read = h_read;   /* never fits */
@@ -153,7 +158,7 @@ void chk_run_case(uint64_t seed, long c, bool is_sweep)
                 if (r < p_trig) { if (chance(40)) check_queries(); do_trigger(); if (chance(30)) { int burst = (int)rn(QCAP + 3); for (int i = 0; i < burst; i++) do_trigger(); } }
                 else if (r < p_trig + 10) check_queries();
                 else if (r < p_trig + 14) { p_write = chance(50) ? 100 : chance(50) ? 0 : 30; if (p_write == 100) sch_eager(&WS); else sch_bern(&WS, p_write, rnd()); }
-                else if (r < p_trig + 17 && INPOS >= INLEN) { in_reset(); in_puts(chance(40) ? "AT+H?\n" : chance(40) ? "AT+HOLD\r\n" : chance(50) ? "AT+AUTO=?\n" : "AT+H=000000000000000000000000000000000000000007\n"); }      /* the last one: the command machine's cursor moves far past the size of a small event buffer */
+                else if (r < p_trig + 17 && INPOS >= INLEN) { in_reset(); in_puts(chance(35) ? "AT+H?\n" : chance(30) ? "AT+HOLD\r\n" : chance(30) ? "AT+H2?\n" : chance(50) ? "AT+AUTO=?\n" : "AT+H=000000000000000000000000000000000000000007\n"); }      /* the last one: the command machine's cursor moves far past the size of a small event buffer */
                 else if (r < p_trig + 19 && hold_active) { if (cat_hold_exit(W.at, CAT_STATUS_OK) == CAT_STATUS_OK) hold_active = false; }
                 else { int k = 1 + (int)rn(20); for (int i = 0; i < k; i++) { svc(); if (chance(10)) check_queries(); } }
         }
